@@ -127,6 +127,31 @@ fn num_class(a: &Value, b: &Value) -> &'static str {
     }
 }
 
+/// `a` and `b` differ only by an integer kind vs a float of the same mathematical value (possibly
+/// nested inside records of the same shape): `cmp` says Equal (asserted by the in-tree tests) while
+/// `==` says different. Used only to *name* the one known design-level incoherence.
+fn int_float_tie(a: &Value, b: &Value) -> bool {
+    if a == b {
+        return false;
+    }
+    match (a, b) {
+        (Value::Record(a1, i1), Value::Record(a2, i2)) => {
+            a1.len() == a2.len()
+                && i1.len() == i2.len()
+                && a1.iter().zip(a2).all(|(x, y)| x.name == y.name && (x.value == y.value || int_float_tie(&x.value, &y.value)))
+                && i1.iter().zip(i2).all(|(x, y)| match (x, y) {
+                    (Item::ValueItem(p), Item::ValueItem(q)) => p == q || int_float_tie(p, q),
+                    (Item::Slot(k1, v1), Item::Slot(k2, v2)) => (k1 == k2 || int_float_tie(k1, k2)) && (v1 == v2 || int_float_tie(v1, v2)),
+                    _ => false,
+                })
+        }
+        _ => {
+            let one_float = matches!(a, Value::Float64Value(_)) != matches!(b, Value::Float64Value(_));
+            one_float && num_class(a, b) == "math-equal"
+        }
+    }
+}
+
 fn show(v: &Value) -> Json {
     let s = format!("{:?}", v);
     Json::String(if s.chars().count() > 160 { format!("{}…", s.chars().take(160).collect::<String>()) } else { s })
@@ -343,6 +368,7 @@ fn pair_laws(a: &Value, b: &Value, out: &mut CaseOut) {
         );
     }
     if (c_ab == Ordering::Equal) != eq_ab {
+        let class = if int_float_tie(a, b) { "int-float-tie" } else { class };
         out.violation(
             P,
             format!("cmp-equal-iff-eq/{ka}/{kb}/{class}"),
@@ -522,9 +548,10 @@ fn main() {
             }
             if vs.iter().zip(other.iter()).any(|(a, b)| a != b) {
                 let (a, b) = vs.iter().zip(other.iter()).find(|(a, b)| a != b).unwrap();
+                let cause = if int_float_tie(a, b) { "int-float-tie".to_string() } else { format!("{}/{}", kind(a), kind(b)) };
                 out.violation(
                     P,
-                    format!("sort-order-dependent/{}/{}", kind(a), kind(b)),
+                    format!("sort-order-dependent/{cause}"),
                     "sorting two permutations of the same multiset gives sequences that differ under ==",
                     json!({"a": show(a), "b": show(b)}),
                 );
@@ -571,9 +598,10 @@ fn main() {
                 );
             }
             if bm.len() != dd.len() {
+                let tie = dd.iter().any(|x| dd.iter().any(|y| int_float_tie(x, y)));
                 out.violation(
                     P,
-                    "btreemap-key-count",
+                    if tie { "btreemap-key-count/int-float-tie" } else { "btreemap-key-count/other" },
                     format!("BTreeMap holds {} keys, {} are distinct under ==", bm.len(), dd.len()),
                     json!({"keys": keys.iter().take(12).map(show).collect::<Vec<_>>()}),
                 );
@@ -593,7 +621,8 @@ fn main() {
                     let nfirst = rng.usize_below(hk.len() + 1);
                     let from_b: Vec<&Value> = bm.keys().take(nfirst).collect();
                     if from_b.iter().zip(hk.iter()).any(|(a, b)| a != b) {
-                        out.violation(P, "first-n-keys-differ", "first n keys of the ordered map differ from the first n sorted keys of the hash map", json!({"n": nfirst}));
+                        let tie = dd.iter().any(|x| dd.iter().any(|y| int_float_tie(x, y)));
+                        out.violation(P, if tie { "first-n-keys-differ/int-float-tie" } else { "first-n-keys-differ/other" }, "first n keys of the ordered map differ from the first n sorted keys of the hash map", json!({"n": nfirst}));
                     }
                 }
             }
